@@ -153,6 +153,8 @@ pub struct Interp {
     pub cfg: usize,
     pub id_offset: u32,
     pub pvols: Vec<PVol>,
+    /// partition slots whose root directory starts with a volume-label entry
+    pub labelled: Vec<bool>,
     pub nodes: Vec<MNode>,
     pub roots: Vec<Option<NodeId>>, // per slot
     pub vols: Vec<OVol>,
@@ -213,6 +215,7 @@ impl Interp {
             cfg: case.cfg as usize % 12,
             id_offset: case.id_offset,
             pvols,
+            labelled: (0..4).map(|s| case.disk.vols.get(s).and_then(|v| v.as_ref()).map(|v| v.geom.label).unwrap_or(false)).collect(),
             nodes: Vec::new(),
             roots: vec![None; 4],
             vols: vec![],
@@ -693,6 +696,8 @@ impl Interp {
                             }
                         } else {
                             match self.child_by_name(od.node, &n11) {
+                                // only the volume label carries the name: listed, found, not a directory
+                                None if self.nodes[od.node].parent.is_none() && self.labelled[od.slot] && &n11 == mkfs::LABEL_NAME => Err(&["OpenedFileAsDir"]),
                                 None => Err(&["NotFound"]),
                                 Some(c) if self.nodes[c].is_dir => Ok(c),
                                 Some(_) => Err(&["OpenedFileAsDir"]),
@@ -1043,7 +1048,7 @@ impl Interp {
                     });
                 match &r {
                     Ok(Some(l)) => {
-                        if !has_label || l != b"VERIF LABEL" {
+                        if !has_label || l != mkfs::LABEL_NAME {
                             self.div("C06", "volume-label", format!("get_root_volume_label = {:?}", String::from_utf8_lossy(l)));
                         }
                     }
@@ -1663,6 +1668,16 @@ impl Interp {
                     return;
                 }
                 match self.child_by_name(od.node, &n11) {
+                    // the listing of a labelled root contains the label's name: lookup finds the
+                    // label entry when no file or directory carries that name
+                    None if !is_sub && self.labelled[od.slot] && &n11 == mkfs::LABEL_NAME => {
+                        if self.expect_ok(info, &r, "C06", "find-label", &what) {
+                            let e = r.unwrap();
+                            if !e.attributes.is_volume() || e.attributes.is_directory() {
+                                self.div("C06", "find-label", format!("{}: the only entry of that name is the volume label, got {:?}", what, e));
+                            }
+                        }
+                    }
                     None => self.expect_err(info, &r, &["NotFound"], "C06", "find-missing", &what),
                     Some(c) => {
                         if self.expect_ok(info, &r, "C06", "find-existing", &what) {
